@@ -148,8 +148,8 @@ def run(ctx):
             if kind == "loop" and k in lmodel and accepted:
                 iloop, _, ibody = o.partition(" | ") if o.startswith("loop=") else ("", "", o)
                 pi = heapcheck.proj_dump(ibody.split(" | ")[0])
-                mm = re.match(r"trie=(\S*) (loop=\S+ passes=\S+ exceeded=\S+ )?(.*)", lmodel[k])
-                mb = mm.group(3).strip() if mm else lmodel[k]
+                mm = re.match(r"trie=(\S*) (loop=\S+ passes=\S+ exceeded=\S+ )?(noid=\S+ )?(.*)", lmodel[k])
+                mb = mm.group(4).strip() if mm else lmodel[k]
                 ml_ = (mm.group(2) or "").strip() if mm else ""
                 if pi != mb or (pi != "noseg" and ml_ and ml_ != iloop):
                     res.disagreements.append({"harness": "h_seg", "mode": "safety-loop", "line": m[1], "impl": (iloop + " " + pi)[:400], "model": (ml_ + " " + mb)[:400], "explained_by_failure": False})
